@@ -475,6 +475,115 @@ Proof.
   - f_equal. now apply hexZ_inj.
 Qed.
 
+(* ---- near-collisions: the key changes with every single digit of every field ---- *)
+Lemma hi_nibble_eq (v b : N) : (16 * v + b mod 16 = b -> v = b / 16)%N.
+Proof.
+  intros H. rewrite (N.div_mod b 16) in H at 2 by discriminate.
+  apply N.add_cancel_r in H. apply N.mul_cancel_l in H; [exact H|discriminate].
+Qed.
+Lemma lo_nibble_eq (v b : N) : (16 * (b / 16) + v = b -> v = b mod 16)%N.
+Proof.
+  intros H. rewrite (N.div_mod b 16) in H at 2 by discriminate. now apply N.add_cancel_l in H.
+Qed.
+Lemma nibble_bounds (b : N) : (b < 256 -> b / 16 < 16 /\ b mod 16 < 16)%N.
+Proof.
+  intros Hb. split; [apply N.div_lt_upper_bound; [discriminate|exact Hb]|apply N.mod_lt; discriminate].
+Qed.
+
+Lemma set_nibble_neq l : forall i v x,
+  get_nibble l i = Some x -> v <> x -> set_nibble l i v <> l.
+Proof.
+  induction l as [|b l IH]; intros [|[|j]] v x Hg Hv; cbn [get_nibble set_nibble] in Hg |- *; try discriminate.
+  - injection Hg as <-. intros [= E]. apply Hv. now apply hi_nibble_eq.
+  - injection Hg as <-. intros [= E]. apply Hv. now apply lo_nibble_eq.
+  - intros [= E]. exact (IH j v x Hg Hv E).
+Qed.
+Lemma set_nibble_length l : forall i v, List.length (set_nibble l i v) = List.length l.
+Proof. induction l as [|b l IH]; intros [|[|j]] v; cbn [set_nibble List.length]; auto. Qed.
+Lemma set_nibble_bytes l : forall i v, (v < 16)%N -> bytes l -> bytes (set_nibble l i v).
+Proof.
+  induction l as [|b l IH]; intros [|[|j]] v Hv Hl; cbn [set_nibble]; auto;
+    inversion Hl as [|? ? Hb Hl0]; subst; constructor; auto;
+    try (destruct (nibble_bounds b Hb) as [B1 B2]; revert B1 B2;
+         generalize (b / 16)%N (b mod 16)%N; intros; lia).
+  now apply IH.
+Qed.
+Lemma set_nibble_bytes32 l i v : (v < 16)%N -> bytes32 l = true -> bytes32 (set_nibble l i v) = true.
+Proof.
+  intros Hv Hl. pose proof (set_nibble_bytes l i v Hv (bytes32_bytes l Hl)) as Hb.
+  unfold bytes32 in *. apply andb_true_iff in Hl. destruct Hl as [Hn _].
+  rewrite set_nibble_length, Hn. cbn. apply forallb_forall. intros x Hx.
+  unfold bytes in Hb. rewrite Forall_forall in Hb. apply N.ltb_lt. now apply Hb.
+Qed.
+Lemma get_nibble_some l : forall i, (i < 2 * List.length l)%nat -> exists x, get_nibble l i = Some x.
+Proof.
+  induction l as [|b l IH]; intros [|[|j]] Hi; cbn [get_nibble List.length] in *; try lia; eauto.
+  apply IH. lia.
+Qed.
+
+Lemma Z_set_nibble_neq z i v : v <> Z_nibble z i -> Z_set_nibble z i v <> z.
+Proof.
+  unfold Z_set_nibble. intros Hv. set (d := Z_nibble z i) in *.
+  assert (P : 0 < 16 ^ Z.of_N i) by (apply Z.pow_pos_nonneg; lia).
+  assert (Q : (v - d) * 16 ^ Z.of_N i <> 0) by nia.
+  destruct (Z.ltb_spec z 0); lia.
+Qed.
+Lemma N_set_digit_neq b i v : v <> N_digit b i -> N_set_digit b i v <> b.
+Proof.
+  unfold N_set_digit. intros Hv. set (d := N_digit b i) in *.
+  assert (P : (0 < 10 ^ i)%N) by (apply N.neq_0_lt_0, N.pow_nonzero; discriminate).
+  assert (Q : (d * 10 ^ i <= b)%N).
+  { unfold d, N_digit. 
+    pose proof (N.mod_le (b / 10 ^ i) 10 ltac:(discriminate)).
+    pose proof (N.mul_div_le b (10 ^ i) ltac:(lia)). nia. }
+  nia.
+Qed.
+
+(* distinct well-formed events of one cache have distinct keys *)
+Theorem distinct_events_distinct_keys : forall e e',
+  wf_ev e = true -> wf_ev e' = true -> cache_of e = cache_of e' -> e <> e' -> key_of e <> key_of e'.
+Proof. intros e e' H1 H2 H3 Hn Hk. apply Hn. now apply key_of_injective. Qed.
+
+Theorem key_dkg_result_single_digit : forall (s : Z) (h : list N) (b : N),
+  bytes32 h = true -> u64 b ->
+  (forall i v, v <> Z_nibble s i -> key_dkg_result (Z_set_nibble s i v) h b <> key_dkg_result s h b) /\
+  (forall i v x, get_nibble h i = Some x -> (v < 16)%N -> v <> x ->
+                 key_dkg_result s (set_nibble h i v) b <> key_dkg_result s h b) /\
+  (forall i v, v <> N_digit b i -> u64 (N_set_digit b i v) ->
+               key_dkg_result s h (N_set_digit b i v) <> key_dkg_result s h b) /\
+  (forall b', u64 b' -> b' <> b -> key_dkg_result s h b' <> key_dkg_result s h b).
+Proof.
+  intros s h b Hh Hb. pose proof (bytes32_bytes h Hh) as Hh'. repeat split.
+  - intros i v Hv Hk. apply key_dkg_result_injective in Hk; auto.
+    destruct Hk as [Hk _]. now apply Z_set_nibble_neq in Hk.
+  - intros i v x Hg Hv Hx Hk. apply key_dkg_result_injective in Hk; auto using set_nibble_bytes.
+    destruct Hk as [_ [Hk _]]. now apply (set_nibble_neq h i v x) in Hk.
+  - intros i v Hv Hu Hk. apply key_dkg_result_injective in Hk; auto.
+    destruct Hk as [_ [_ Hk]]. now apply N_set_digit_neq in Hk.
+  - intros b' Hb' Hn Hk. apply key_dkg_result_injective in Hk; auto. tauto.
+Qed.
+
+Theorem key_of_single_digit :
+  (forall s i v, v <> Z_nibble s i ->
+     key_of (DkgStarted (Z_set_nibble s i v)) <> key_of (DkgStarted s) /\
+     key_of (BeaconDkgStarted (Z_set_nibble s i v)) <> key_of (BeaconDkgStarted s)) /\
+  (forall id i v x, bytes32 id = true -> get_nibble id i = Some x -> (v < 16)%N -> v <> x ->
+     key_of (WalletClosed (set_nibble id i v)) <> key_of (WalletClosed id)).
+Proof.
+  split.
+  - intros s i v Hv. cbn. split; intros Hk; apply hexZ_inj in Hk; now apply Z_set_nibble_neq in Hk.
+  - intros id i v x Hid Hg Hv Hx Hk. cbn in Hk.
+    apply hex_bytes_inj in Hk; auto using set_nibble_bytes, bytes32_bytes.
+    now apply (set_nibble_neq id i v x) in Hk.
+Qed.
+
+(* non-vacuity: all 64 digits of a 32-byte string exist *)
+Lemma bytes32_nibbles l i : bytes32 l = true -> (i < 64)%nat -> exists x, get_nibble l i = Some x.
+Proof.
+  intros Hl Hi. apply get_nibble_some. unfold bytes32 in Hl. apply andb_true_iff in Hl.
+  destruct Hl as [Hn _]. apply Nat.eqb_eq in Hn. lia.
+Qed.
+
 Lemma N_eqb_spec' (a b : N) : N.eqb a b = true <-> a = b.
 Proof. apply N.eqb_eq. Qed.
 Lemma string_eqb_spec' (a b : string) : String.eqb a b = true <-> a = b.
@@ -592,3 +701,12 @@ Example dedup_example :
   Forall dwf_op ops /\ mono ev N 0 ops = true /\
   map snd (drun [10; 10; 10; 10] ops) = [true; true; false].
 Proof. cbn zeta. split; [repeat constructor|split; reflexivity]. Qed.
+
+(* a near-collision history: two results that differ in the LAST hex digit of the hash only *)
+Example near_collision_example :
+  let h := H "0718293a4b5c6d7e8fa0b1c2d3e4f5061728394a5b6c7d8e9fb0c1d2e3f405a3" in
+  let a := DkgResult 171 h 19876543 in
+  let b := DkgResult 171 (set_nibble h 63 4) 19876543 in
+  get_nibble h 63 = Some 3%N /\ wf_ev a = true /\ wf_ev b = true /\
+  map snd (drun [10; 10; 10; 10] [OAdd a 0; OAdd b 0; OAdd a 1; OAdd b 1]) = [true; true; false; false].
+Proof. cbn zeta. repeat split; reflexivity. Qed.
